@@ -146,7 +146,13 @@ pub fn run(r: &mut Report) {
                       serde_json::Value::String(sv) => { *sv = text(&mut rng); }
                       serde_json::Value::Number(_) => { *c = json!(*rng.pick(&[0i64, 1, 2, -1, 255, 4294967295])); }
                       serde_json::Value::Array(a) => { match rng.below(3) { 0 => { a.pop(); } 1 => { if let Some(x) = a.last().cloned() { a.push(x); } } _ => { let at = if a.is_empty() { 0 } else { rng.below(a.len() as u64 + 1) as usize }; a.insert(at, json!(text(&mut rng))); } } }
-                      serde_json::Value::Object(o) => { let keys: Vec<String> = o.keys().cloned().collect(); if !keys.is_empty() { let k = rng.pick(&keys).clone(); if rng.chance(50) { o.remove(&k); } else { o.insert(k, json!(null)); } } }
+                      serde_json::Value::Object(o) => { let keys: Vec<String> = o.keys().cloned().collect();
+                          match rng.below(3) {
+                              // a member nobody asked for: a pool text, an algorithm-like or a field-like name, with a string / object value
+                              0 => { let k = if rng.chance(50) { text(&mut rng) } else { (*rng.pick(&["sha1", "md5", "sha3-256", "blake2b", "extra", "keyid", "threshold", "x"])).to_string() };
+                                     let v = if rng.chance(70) { json!(*rng.pick(&["00", "ab", "", "0"])) } else { json!({}) }; o.entry(k).or_insert(v); }
+                              1 => { if !keys.is_empty() { let k = rng.pick(&keys).clone(); o.remove(&k); } }
+                              _ => { if !keys.is_empty() { let k = rng.pick(&keys).clone(); o.insert(k, json!(null)); } } } }
                       serde_json::Value::Null => { *c = json!({}); }
                       serde_json::Value::Bool(bv) => { *bv = !*bv; }
                   } }
